@@ -68,9 +68,58 @@ def replay(ctx, beh, label):
     return st
 
 
+def limbo(ctx, only=None):
+    """spec/Limbo.tla: commands on an object between its deadline and the sweep; RestartEquivalence by TLC, every
+    behaviour with a passing deadline replayed on real servers (the deadline passes inside a script)."""
+    mc = ("---- MODULE MC_%s ----\nEXTENDS Limbo, Json\n"
+          "Emit == [][PrintT(<<\"TR\", ToJson([steps |-> hist', fin |-> Quiet(obj')])>>)]_vars\n====\n")
+    if only is not None:
+        beh = os.path.join(ctx.scratch, "limbo_replay.ndjson")
+        open(beh, "w").write(json.dumps(only) + "\n")
+        r = {"distinct": 0, "generated": 0}
+    else:
+        n = ctx.pick(4, 5)
+        r = ctx.tlc("limbo", ["Limbo.tla"], mc % "limbo", "SPECIFICATION Spec\n" + cfg_consts(MaxOps=n, LimboMeans="present") +
+                    "VIEW View\nINVARIANT RestartEquivalence OnlyByDel\nPROPERTY Emit\n", workers=4, timeout=900)
+        if not r["ok"]:
+            raise common.Infra("Limbo (as coded) violates %s" % r["violated"])
+        r2 = ctx.tlc("limbo_dev", ["Limbo.tla"], mc % "limbo_dev", "SPECIFICATION Spec\n" + cfg_consts(MaxOps=3, LimboMeans="absent") +
+                     "VIEW View\nINVARIANT RestartEquivalence\n", workers=4, timeout=600, expect_violation=True)
+        if r2["violated"] != "RestartEquivalence":
+            raise common.Infra("Limbo: an existence test that skips overdue objects does not violate RestartEquivalence (vacuous)")
+        allb = os.path.join(r["dir"], "all.ndjson")
+        ctx.extract_tr(r["out"], allb)
+        import random
+        bl = [l for l in open(allb) if '"pass"' in l]
+        random.Random(ctx.seed).shuffle(bl)
+        bl = bl[:ctx.pick(600, 6000)]
+        beh = os.path.join(r["dir"], "beh.ndjson")
+        open(beh, "w").write("".join(bl))
+    rc, js, err = ctx.harness(["aof-limbo", "-in", beh, "-par", "8"], timeout=2400)
+    st = js["stats"]
+    ctx.log("limbo: TLC %d states (RestartEquivalence, OnlyByDel; refuted when NX/XX skip overdue objects); %d behaviours, %d deadlines "
+            "passed inside scripts, %d differences from the specification's replies/states (recorded), %d mismatches"
+            % (r["distinct"], st["behaviours"], st["passes"], st["model_diffs"], len(js.get("mismatches") or [])))
+    lines = open(beh).read().split("\n")
+    groups = {}
+    for m in js.get("mismatches") or []:
+        groups.setdefault(m["what"], []).append(m)
+    for what, ms in groups.items():
+        m = ms[0]
+        common.report(ctx, "c03-limbo-%s" % what, "limbo %s mismatch (%d behaviours), behaviour %d: %s"
+                      % (what, len(ms), m["behaviour"], m["detail"]),
+                      {"kind": "limbo", "behaviour": json.loads(lines[m["behaviour"]])})
+    if only is None and st["passes"] == 0:
+        raise common.Infra("no deadline passed inside a script (vacuous)")
+    return r, st
+
+
 def run(ctx):
     if ctx.replay:
         p = json.load(open(ctx.replay))
+        if p.get("kind") == "limbo":
+            limbo(ctx, only=p["behaviour"])
+            return
         beh = os.path.join(ctx.scratch, "replay.ndjson")
         open(beh, "w").write(p["behaviour"] + "\n")
         replay(ctx, beh, "replay")
@@ -81,6 +130,7 @@ def run(ctx):
     st = replay(ctx, beh, "sim")
     if st["Snapshots"] + st["Restarts"] == 0:
         raise common.Infra("no restart was exercised (vacuous)")
+    lr, lst = limbo(ctx)
     with open(beh) as f:
         sample = f.readline()[:2000]
     common.write_evidence(ctx, "model_checking", {
@@ -88,6 +138,8 @@ def run(ctx):
         "traces_validated_against_impl": st["Behaviours"],
         "samples": [sample], "commands": st["Cmds"], "kill_snapshots": st["Snapshots"], "clean_restarts": st["Restarts"],
         "killed_bursts": st["Bursts"], "script_issued_writes": st["ScriptWrites"], "expiries": st["Expiries"],
+        "limbo": {"states": lr["distinct"], "behaviours": lst["behaviours"], "deadlines_passed_inside_scripts": lst["passes"],
+                  "differences_from_the_specification_recorded": lst["model_diffs"]},
         "explanation": "Design: RestartEquivalence (Replay(log) = state) over all histories of a small alphabet incl. JSET/JDEL, hooks, "
                        "RENAME(NX); it fails when JDEL is removed from the write table. Conformance: simulated behaviours executed on a "
                        "real server; the log as left at each kill instant / after each clean stop is loaded by a fresh server and its "
